@@ -2092,7 +2092,7 @@ impl StorageEngine {
         let ttl = self.ttl(db, key)?;
         
         match ttl {
-            Some(duration) => Ok(duration.as_millis() as i64),
+            Some(duration) => Ok(duration.as_millis().min(i64::MAX as u128) as i64),
             None => {
                 if self.exists(db, key)? {
                     Ok(-1)
